@@ -933,15 +933,20 @@ class IRGenerator:
                     if not (field._ast_node.type_ref.nullable and default_value is None):
                         # Verify that the type of the default value is correct for this field
                         try:
+                            field.data_type.check(default_value)
                             if field.data_type.name in ('Float32', 'Float64'):
                                 # You can assign int to the default value of float type
                                 # However float type should always have default value in float
                                 default_value = float(default_value)
-                            field.data_type.check(default_value)
                         except ValueError as e:
                             raise InvalidSpec(
                                 'Field %s has an invalid default: %s' %
                                 (quote(field._ast_node.name), e),
+                                field._ast_node.lineno, field._ast_node.path)
+                        except NotImplementedError:
+                            raise InvalidSpec(
+                                'Field %s cannot have a default: only fields with a '
+                                'primitive or union type can.' % quote(field._ast_node.name),
                                 field._ast_node.lineno, field._ast_node.path)
                     field.set_default(default_value)
 
